@@ -196,7 +196,8 @@ fn gen_frame(rng: &mut Rng) -> Vec<u8> {
     let long = df & 0x10 != 0;
     let mut len = if long { 14 } else { 7 };
     if rng.chance(0.12) {
-        len = rng.below(33) as usize; // truncated, exact or over-long
+        // truncated, exact or over-long (a frame followed by further traffic in the same buffer)
+        len = if rng.chance(0.25) { 33 + rng.below(64) as usize } else { rng.below(33) as usize };
     }
     let mut b: Vec<u8> = (0..len.max(1)).map(|_| rng.next_u64() as u8).collect();
     b[0] = (df << 3) | (rng.below(8) as u8);
@@ -512,13 +513,13 @@ impl Engine for ReaderEngine {
     }
 
     fn rule(&self) -> String {
-        "seed -> 1..2 byte strings (every DF 0..31, DF17/18 with every type code, DF20/21 BDS classes, lengths 0..=32) decoded in orders A | A,A | A,B | A,B,A through a scripted reader that starts at stream offset 0 (70 %) or 1..100; per read call the script gives 0..3 Interrupted errors and a fragment cap (full / 1..4 / 1 byte), with an optional bias that puts Interrupted on the read directly after a seek. A run is non-trivial when at least one fault fired (Interrupted or short read) and at least one probe was reached; distinct = distinct fingerprint of the full read/seek call trace plus results.".to_string()
+        "seed -> 1..2 byte strings (every DF 0..31, DF17/18 with every type code, DF20/21 BDS classes, lengths 0..=96) decoded in orders A | A,A | A,B | A,B,A through a scripted reader that starts at stream offset 0 (70 %) or 1..100; per read call the script gives 0..3 Interrupted errors and a fragment cap (full / 1..4 / 1 byte), with an optional bias that puts Interrupted on the read directly after a seek. A run is non-trivial when at least one fault fired (Interrupted or short read) and at least one probe was reached; distinct = distinct fingerprint of the full read/seek call trace plus results.".to_string()
     }
 
     fn assumptions(&self) -> Vec<String> {
         vec![
             "seek never fails (the property speaks of short reads and transient Interrupted only)".into(),
-            "at most 3 consecutive Interrupted per read call, buffers of at most 32 bytes".into(),
+            "at most 3 consecutive Interrupted per read call, buffers of at most 96 bytes".into(),
             "equality of results is judged on crc, the Debug rendering of the decoded frame and the error variant class".into(),
         ]
     }
